@@ -14,7 +14,7 @@ from mc import refalg as R
 PROPERTY = "C07"
 LEVEL = "model_checking"
 
-SHAPES = ["sum", "weighted", "zero", "cancel", "nested", "scaled", "dd", "nn", "three", "double"]
+SHAPES = ["sum", "weighted", "zero", "cancel", "nested", "scaled", "dd", "nn", "three", "double", "nil"]
 POINTS = ["x0", "x1", "x0c", "cancel", "combo", "combo_rev", "x0z", "last"]
 OPS_FULL = ["oracle", "gradient", "value", "call", "stat", "fixed", "prox", "els", "iprox", "epssub", "bprox"]
 OPS_RED = ["oracle", "value", "stat", "prox"]
@@ -37,6 +37,7 @@ class World(object):
         elif shape == "nested": F = (f1 + f2) + f1
         elif shape == "scaled": F = 3 * (f1 / 3)
         elif shape == "double": F = 2 * f1                      # a multiple of ONE term
+        elif shape == "nil": F = f2 - f2                        # identically zero: its only term cancels
         elif shape == "dd":
             f3 = p.declare_function(SmoothConvexFunction, L=2.)
             self.leaves["f3"] = f3
@@ -57,7 +58,7 @@ class World(object):
         self.funcs = dict(self.leaves, F=F)
         # the weights the user wrote, independent of the library's own bookkeeping
         self.weights = {"sum": {"f1": 1, "f2": 1}, "weighted": {"f1": -1, "f2": 2}, "zero": {"f1": 1},
-                        "cancel": {"f1": 1}, "nested": {"f1": 2, "f2": 1}, "scaled": {"f1": 1}, "double": {"f1": 2},
+                        "cancel": {"f1": 1}, "nested": {"f1": 2, "f2": 1}, "scaled": {"f1": 1}, "double": {"f1": 2}, "nil": {},
                         "dd": {"f1": 1, "f3": 1}, "nn": {"f2": 1, "f4": 1}, "three": {"f1": 1, "f2": 2, "f4": 1}}[shape]
         self.differentiable = {"f1": True, "f2": False, "f3": True, "f4": False,
                                "F": all(n in ("f1", "f3") for n in self.weights)}
@@ -236,6 +237,11 @@ def judge(shape, hist):
             if fv in seen_v and seen_v[fv] != pk:
                 probs.append(("I6:%s:value-shared" % shape, "%s uses one function value for two different points" % fname))
             seen_v[fv] = pk
+    if shape == "nil":
+        # finding keys on the identically-zero sum say HOW its samples came about: handed over by a primitive step / a stationary- or
+        # fixed-point declaration (which create the triplet themselves and register it with add_point) or produced by the sum's own oracle
+        route = "declared-by-a-step" if any(o[1] == "bprox" or (o[0] == "F" and o[1] not in ("oracle", "gradient", "value", "call")) for o in hist) else "queried"
+        probs = [(k + ":" + route, m) for k, m in probs]
     # canonical state (for state counting): multiset of canonical samples per function + returned table
     canon = tuple(sorted((fn, tuple(sorted((pk, R.freeze(g), R.freeze(v)) for pk, g, v in tr))) for fn, tr in samples.items()))
     nF = len(samples["F"])
